@@ -394,6 +394,30 @@ let bldgen (line : string) : string =
   if (fst !acc).paused then emit "R";
   Printf.sprintf "W=%d;L=%d;B=%s;S=%s;ops=%s" w l (List.assoc "B" fields) (try List.assoc "S" fields with Not_found -> "a") (String.concat " " (List.rev !out))
 
+
+(* ---------- sanity mode: the no-strand invariant (Proofs/SrvPauseB.v: BInv true /\ WQ) evaluated after every op of a script ---------- *)
+let binv (line : string) : string =
+  let fields = fields_of line in
+  let w = int_of_string (List.assoc "W" fields) and l = int_of_string (List.assoc "L" fields) in
+  let kinds = List.init (String.length (List.assoc "K" fields)) (fun i -> (List.assoc "K" fields).[i] = 'U') in
+  let ops = List.map parse_op (List.filter (fun s -> s <> "") (String.split_on_char ' ' (List.assoc "ops" fields))) in
+  let lz = z_of_int l in
+  let st = ref (init (nat_of_int w) kinds) in
+  let bad = ref "" in
+  List.iteri (fun k o ->
+    if !bad = "" then begin
+      st := step lz !st o;
+      let s = !st in
+      if s.err = None then begin
+        if not s.stopped && not s.paused && available s.av then
+          List.iteri (fun t ls ->
+            if not (ls.l_backlog = [] || ls.l_inject <> [] || (ls.l_reg && ls.l_edge) || ls.l_to <> None) then
+              bad := Printf.sprintf "op %d: listener %d stranded" k t) s.lsts;
+        if not s.stopped && s.wq <> [] && not s.wpend then bad := Printf.sprintf "op %d: WQ" k
+      end
+    end) ops;
+  if !bad = "" then "ok" else !bad
+
 (* ---------- breadth-first enumeration of the model's own state space ----------
    request "W=..;L=..;K=..;depth=<d>;max=<n>;flags=<k|c|i|d>": explores the states reachable by scripts of at most d
    operations (no yield schedules) and prints ONE script per newly found (state, operation) transition, so that every
@@ -468,7 +492,7 @@ let bfs (line : string) : unit =
 let () =
   if Sys.argv.(1) = "bfs" then begin (try while true do bfs (input_line stdin) done with End_of_file -> ()); exit 0 end;
   let f = match Sys.argv.(1) with
-    | "srv" -> srv | "avail" -> avail | "gen" -> gen | "bld" -> bld | "bldgen" -> bldgen
+    | "srv" -> srv | "avail" -> avail | "gen" -> gen | "bld" -> bld | "bldgen" -> bldgen | "binv" -> binv
     | m -> failwith ("unknown mode " ^ m) in
   try while true do
     let line = input_line stdin in
